@@ -117,13 +117,14 @@ func lookupWellKnown(ctx context.Context, serverNameType spec.ServerName, transp
 	}
 
 	// Convert result to JSON
-	wellKnownResponse := &WellKnownResult{
-		CacheExpiresAt: expiryTimestamp,
-	}
+	wellKnownResponse := &WellKnownResult{}
 	err = json.Unmarshal(body, wellKnownResponse)
 	if err != nil {
 		return nil, err
 	}
+	// The cache lifetime comes from the response headers only: set it after decoding,
+	// so that a "CacheExpiresAt" member of the document cannot override it.
+	wellKnownResponse.CacheExpiresAt = expiryTimestamp
 
 	if wellKnownResponse.NewAddress == "" {
 		return nil, errors.New("No m.server key found in well-known response")
